@@ -61,6 +61,11 @@ fn check_forest(levels: &[u16], vis: &dyn Fn(usize) -> bool, sample_only: bool, 
             if p >= i as u32 {
                 return Err(Failure::new("parent-order", format!("layer {} has parent {} with a non-lower id", i, p)));
             }
+            // the handle parent() hands out is the parent layer in every respect
+            let (ph, direct) = (l.parent().unwrap(), f.layer(p));
+            if (ph.flags(), ph.is_visible(), ph.name().to_string(), ph.parent().map(|x| x.id())) != (direct.flags(), direct.is_visible(), direct.name().to_string(), direct.parent().map(|x| x.id())) {
+                return Err(Failure::new("parent-handle", format!("layer {}: the handle returned by parent() reports flags {:?} / visible {} / name {:?}, layer({}) reports {:?} / {} / {:?}", i, ph.flags(), ph.is_visible(), ph.name(), p, direct.flags(), direct.is_visible(), direct.name())));
+            }
         }
         let want_vis = s.layer_visible(i);
         if l.is_visible() != want_vis {
@@ -220,6 +225,12 @@ fn check_sprite_hidden(tape: &[u32]) -> CheckResult {
         let wantp = s.parent_of(i).map(|p| p as u32);
         if l.parent().map(|p| p.id()) != wantp {
             return Err(Failure::new("parent", format!("layer {} parent {:?}, expected {:?}", i, l.parent().map(|p| p.id()), wantp)).with(detail()));
+        }
+        if let Some(ph) = l.parent() {
+            let direct = f.layer(ph.id());
+            if (ph.flags(), ph.is_visible(), ph.name().to_string()) != (direct.flags(), direct.is_visible(), direct.name().to_string()) {
+                return Err(Failure::new("parent-handle", format!("layer {}: the handle returned by parent() differs from layer({}) in flags, visibility or name", i, ph.id())).with(detail()));
+            }
         }
         if l.is_visible() != s.layer_visible(i) {
             return Err(Failure::new("is-visible", format!("layer {} is_visible {} expected {}", i, l.is_visible(), s.layer_visible(i))).with(detail()));
